@@ -133,27 +133,22 @@ def rule_who(R):
 def rule_due(R):
     f = R.f
     cm = roles.conn_methods(f)
-    sq_b, sq = cm["should_queue_pingreq"]
-    R.touch(sq)
-    touched = set(f.fields_touched(sq_b.name))
-    state = set((a, n) for (a, n) in touched if a in roles.STATE_ADTS or a == "mqtt_client::outbound::PendingControl")
-    allowed = {(CONN, "session"), (roles.SESSION, "runtime"), (roles.SESSION, "data"), (SDATA, "outbound"),
-               (RUNTIME, "ping_timeout"), (RUNTIME, "next_ping"), (OUTBOUND, "pending_control"),
-               ("mqtt_client::outbound::PendingControl", "action"), ("mqtt_client::outbound::PendingControl", "state")}
-    extra = sorted(state - allowed)
-    R.ob("due/depends-only-on-keepalive-state", not extra,
-         "whether a PINGREQ is due depends only on the two keep-alive deadlines and on PINGREQs already queued; it also "
-         "reads %s — unrelated in-flight state must not suppress or force pings" % extra, where=sq_b.span)
-    need = {(RUNTIME, "ping_timeout"), (RUNTIME, "next_ping"), (OUTBOUND, "pending_control")}
-    R.ob("due/conjuncts", need <= state,
-         "the test consults the response deadline, the next-ping deadline and the control queue (reads %s)" % sorted(n for a, n in state & need),
-         where=sq_b.span)
-    # shape: the truth table over (ping_timeout, next_ping) present / absent, read off the code whatever its spelling
-    # (&&-chain of combinators, match, if-let): false unless no response is outstanding and a ping deadline exists; then
-    # true only where `now >= next_ping` was tested and holds, and the value is `!has_pending_pingreq()`
     from .. import optsem, panics
+    qc = outq.role_fn(f, "queue_control")
+    # the due test: a predicate of its own (should_queue_pingreq) or, when that was folded into its caller, the
+    # condition under which maybe_queue_pingreq reaches the enqueue
+    embedded = "should_queue_pingreq" not in cm
+    if embedded:
+        sq_b, sq = cm["maybe_queue_pingreq"]
+        marks = [c.bb for c in outq.calls_to(f, sq, qc)]
+    else:
+        sq_b, sq = cm["should_queue_pingreq"]
+        marks = []
+    R.touch(sq)
 
     def is_false(o):
+        if embedded:
+            return not o["marked"]
         return bool(o["values"]) and all(v[0] == "const" and v[2] == 0 for v in o["values"])
 
     def is_due_cmp(t):
@@ -166,12 +161,16 @@ def rule_due(R):
 
     ok = True
     why = ""
+    tested_terms = []
     for pt in ("None", "Some"):
         for np_ in ("None", "Some"):
-            outs = optsem.decide(sq, {"ping_timeout": pt, "next_ping": np_})
+            outs = optsem.decide(sq, {"ping_timeout": pt, "next_ping": np_}, mark_blocks=marks)
             if not outs:
                 ok, why = False, "no outcome extracted for ping_timeout=%s next_ping=%s" % (pt, np_)
                 continue
+            for o in outs:
+                if not is_false(o) or not embedded:
+                    tested_terms += [t for t in o["true"] + o["false"] if isinstance(t, tuple)] + [v for v in o["values"] if not embedded]
             if (pt, np_) != ("None", "Some"):
                 if not all(is_false(o) for o in outs):
                     ok, why = False, "not false for ping_timeout=%s next_ping=%s" % (pt, np_)
@@ -179,16 +178,65 @@ def rule_due(R):
             pos = [o for o in outs if not is_false(o)]
             if not pos:
                 ok, why = False, "never due"
+            def holds(o):
+                """comparisons that hold on the path of outcome o, in canonical form"""
+                out_ = []
+                for t in o["true"]:
+                    c = panics.canon_cmp(t) if isinstance(t, tuple) else None
+                    if c:
+                        out_.append(c)
+                for t in o["false"]:
+                    c = panics.canon_cmp(t) if isinstance(t, tuple) else None
+                    if c:
+                        out_.append(panics.negate(c))
+                return out_
+
+            def due_fact(c):
+                return c[0] == "<=" and "next_ping" in c[1] and c[2].replace("&", "").replace("*", "") == "now"
+
+            def early_fact(c):
+                return c[0] == "<" and "next_ping" in c[2] and c[1].replace("&", "").replace("*", "") == "now"
             for o in pos:
-                tested = any(is_due_cmp(t) for t in o["true"] if isinstance(t, tuple))
-                val_ok = all(not_pending(v) for v in o["values"]) or \
-                    (all(v[0] == "const" and v[2] == 1 for v in o["values"]) and
-                     any(is_call(peel(t), "has_pending_pingreq") for t in o["false"] if isinstance(t, tuple)))
+                tested = any(due_fact(c) for c in holds(o))
+                pend_false = any(is_call(peel(t), "has_pending_pingreq") for t in o["false"] if isinstance(t, tuple)) or \
+                    any(not_pending(t) for t in o["true"] if isinstance(t, tuple))
+                if embedded:
+                    val_ok = pend_false
+                else:
+                    val_ok = all(not_pending(v) for v in o["values"]) or (all(v[0] == "const" and v[2] == 1 for v in o["values"]) and pend_false)
                 if not (tested and val_ok):
-                    ok, why = False, "due on a path without `now >= next_ping` or without `!has_pending_pingreq()`: %s" % [show(v) for v in o["values"]]
+                    ok, why = False, "due on a path without `now >= next_ping` or without `!has_pending_pingreq()`"
             for o in outs:
-                if any(is_due_cmp(t) for t in o["false"] if isinstance(t, tuple)) and not is_false(o):
+                if any(early_fact(c) for c in holds(o)) and not is_false(o):
                     ok, why = False, "due although now < next_ping"
+    # what the decision reads
+    if embedded:
+        state = set()
+        for t in tested_terms:
+            for x in walk(t):
+                if x[0] == "field" and x[3] in roles.STATE_ADTS:
+                    state.add((x[3], x[2]))
+                if x[0] == "call" and x[2] in f.bodies:
+                    state |= set((a, n) for (a, n) in f.fields_touched(x[2]) if a in roles.STATE_ADTS or a == "mqtt_client::outbound::PendingControl")
+        for bb_ in sq.switches:
+            si_ = sq.switch_info(bb_)
+            nm_ = chain(si_["subject"])[1][-1:]
+            if si_["enum"] == "core::option::Option" and nm_ and nm_[0] in ("ping_timeout", "next_ping"):
+                state.add((RUNTIME, nm_[0]))
+    else:
+        touched = set(f.fields_touched(sq_b.name))
+        state = set((a, n) for (a, n) in touched if a in roles.STATE_ADTS or a == "mqtt_client::outbound::PendingControl")
+    allowed = {(CONN, "session"), (roles.SESSION, "runtime"), (roles.SESSION, "data"), (SDATA, "outbound"),
+               (RUNTIME, "ping_timeout"), (RUNTIME, "next_ping"), (OUTBOUND, "pending_control"),
+               ("mqtt_client::outbound::PendingControl", "action"), ("mqtt_client::outbound::PendingControl", "state")}
+    extra = sorted(state - allowed)
+    R.ob("due/depends-only-on-keepalive-state", not extra,
+         "whether a PINGREQ is due depends only on the two keep-alive deadlines and on PINGREQs already queued; it also "
+         "reads %s — unrelated in-flight state must not suppress or force pings" % extra, where=sq_b.span)
+    need = {(RUNTIME, "ping_timeout"), (RUNTIME, "next_ping"), (OUTBOUND, "pending_control")}
+    R.ob("due/conjuncts", need <= state,
+         "the test consults the response deadline, the next-ping deadline and the control queue (reads %s)" % sorted(n for a, n in state & need),
+         where=sq_b.span)
     R.ob("due/shape", ok,
          "a PINGREQ is due iff no response is outstanding, now >= next_ping, and none is queued already%s" % ((" — " + why) if why else ""),
          where=sq_b.span)
@@ -198,20 +246,30 @@ def rule_due(R):
         hp = None
     okh = False
     if hp is not None:
-        clh = [c for c in f.children(hp) if c.kind == "closure"]
-        okh = len(clh) == 1 and "PingReq" in show(clh[0].local_term(0)) + "".join(show(clh[0].switch_info(b)["subject"]) + str(clh[0].switch_info(b)["edges"]) for b in clh[0].switches)
-        okh = okh and is_call(peel(hp.local_term(0)), "any")
+        def pingreq_hit(body, nx, path):
+            # the path passes the PingReq edge of a test of the element's action
+            for i in range(len(path) - 1):
+                if path[i] in body.switches:
+                    si = body.switch_info(path[i])
+                    if si["enum"] and si["enum"].endswith("ControlAction") and si["edges"].get("PingReq") == path[i + 1]:
+                        r_, n_ = chain(si["subject"])
+                        if isinstance(r_, tuple) and r_[0] == "call" and r_[1] == nx.bb and n_[-1:] == ["action"]:
+                            return True
+            return False
+        okh = roles.membership_loop(hp, "pending_control", pingreq_hit)
     R.ob("due/pending-lookup", okh, "a PINGREQ that is queued but not yet sent is found by a lookup in the control queue "
          "(Outbound::has_pending_pingreq)", where=hp.span if hp is not None else sq_b.span)
     mq_b, mq = cm["maybe_queue_pingreq"]
-    qc = outq.role_fn(f, "queue_control")
     qcs = outq.calls_to(f, mq, qc)
     edges = []
-    for c in outq.calls_to(f, mq, sq_b):
-        for si in mq.result_switches(lambda x, c=c: peel(x)[0] == "call" and peel(x)[1] == c.bb):
-            if si["edges"].get(True) is not None:
-                edges.append((si["bb"], si["edges"][True]))
-    ok = len(qcs) == 1 and bool(edges) and mq.must_pass([0], [qcs[0].bb], via_edges=edges)[0]
+    if not embedded:
+        for c in outq.calls_to(f, mq, sq_b):
+            for si in mq.result_switches(lambda x, c=c: peel(x)[0] == "call" and peel(x)[1] == c.bb):
+                if si["edges"].get(True) is not None:
+                    edges.append((si["bb"], si["edges"][True]))
+        ok = len(qcs) == 1 and bool(edges) and mq.must_pass([0], [qcs[0].bb], via_edges=edges)[0]
+    else:
+        ok = len(qcs) == 1   # the truth table above was taken at this very enqueue
     act = peel(mq.operand_term(qcs[0].args[1])) if qcs else ("unknown",)
     ok = ok and act[0] == "agg" and act[3] == "PingReq"
     R.ob("due/enqueue", ok, "maybe_queue_pingreq queues a PINGREQ exactly on the `due` edge", where=mq_b.span)
